@@ -551,10 +551,13 @@ func grpcExtractErrorFromTrailer(trailers http.Header) *connect.Error {
 			protocolError("invalid protobuf for error details: %w", err),
 		)
 	}
-	trailerErr := connect.NewWireError(
-		connect.Code(stat.GetCode()), //nolint:gosec // No information loss.
-		errors.New(stat.GetMessage()),
-	)
+	detailsCode := connect.Code(stat.GetCode()) //nolint:gosec // No information loss.
+	if detailsCode == 0 {
+		// The status header said this is an error; details that claim
+		// "OK" do not change that.
+		detailsCode = connect.Code(code)
+	}
+	trailerErr := connect.NewWireError(detailsCode, errors.New(stat.GetMessage()))
 	for _, msg := range stat.GetDetails() {
 		errDetail, err := connect.NewErrorDetail(msg)
 		if err != nil {
